@@ -5,18 +5,80 @@ import HexProofs.Numeric.Rsi
 import HexProofs.Numeric.Stoch
 import HexProofs.Numeric.Adx
 import HexProofs.Numeric.SeriesMore
+import HexProofs.Numeric.SeriesRSI
+import HexProofs.Numeric.SeriesMACD
+import HexProofs.Numeric.SeriesSTOCH
+import HexProofs.Numeric.SeriesTSI
+import HexProofs.Numeric.SeriesADX
+import HexProofs.Numeric.SeriesWindows
 import HexProofs.Numeric.Demo
 /-
 C06 – Momentum, oscillator and volume indicators match their definitions
 (NUMERIC layer: ordered field `K` with `LawfulPyF K`; IEEE rounding error, overflow and NaN are
 outside these theorems – see HexProofs/Numeric/Lawful.lean).
 
-Indicators covered: RSI, MACD, ROC, Stochastic, TSI, Aroon, ADX, OBV, VWAP.  For the indicators
-that write helper series the framework services are abstract (`ops`); hypotheses state that the
-write succeeds and what is read back.  Missing for the full property (`C06_FULL`): the induction
-along the framework's calculation order to whole series, and the identification of the helper
-readings (`_k`, `_d`, `_first`, `_second`, `_pos`, `_neg`, `_dx`, `_signal_line`) with the
-SMA/EMA/RMA of the helper series – each helper is an ordinary SMA/EMA/RMA covered by C04.
+Indicators covered: RSI, MACD, ROC, Stochastic, TSI, Aroon, ADX, OBV, VWAP.
+
+WHAT IS PROVED NOW
+
+1. Every single `_calculate_reading` call of all nine indicators (`rsi_step`, `rsi_seed`, `macd`,
+   `roc`, `stoch`, `tsi`, `aroon`, `adx`, `obv`, `vwap`, …): given the readings the Python method
+   reads, the returned value is the textbook expression in them.  For the indicators that write
+   helper series the framework services are abstract there (`ops`).
+
+2. The WHOLE SERIES of all nine indicators over raw candles, input a candle field, for EVERY raw
+   stream (section "whole series" below).  Each theorem says: the row-major run of the indicator's
+   `TreeSpec` never raises and returns the raw candles carrying, on candle `j`, an explicit
+   function of the raw candles (`decoRsi`, `macdOut`, `stochDeco`, `tsiOut`, `adxOut`, `decoVwap`,
+   `deco`), and every stored reading – own reading, managed `<name>_data` entry and every helper
+   (`_EMA_fast`, `_EMA_slow`, `_signal_line`, `_k`, `_d`, `_first`, `_second`, `_abs_first`,
+   `_abs_second`, `_atr`, `_atr_TR`, `_pos`, `_neg`, `_dx`) – is `None` before its TRUE warm-up index
+   and afterwards within an explicit rounding budget of the textbook series of the raw inputs.
+   The `…_batch` / `…_batch_readings` forms say the same of the OBJECT (`runIndicator … {} raw []`:
+   build the indicator over the stream, `calculate()` once), the `…_live` forms of EVERY append
+   schedule (`runIndicator … {} init chunks`: construction over `init`, `calculate()`, then any
+   appends): the snapshot is that same function of the whole stream `init ++ chunks.flatten`.
+   True warm-up indices and budgets (`ε_n = eps K n` for the node's `round_value`, `ε₄` for the
+   helpers, which the engine rounds to `defaultRound = 4` decimals; managed `<name>_data` series
+   are stored UNROUNDED):
+   * RSI(p ≥ 1): first reading at index `p`; `_data` = exactly Wilder's averages of the up / down
+     moves; own reading within `ε_n` (no growth) and in `[0, 100]`.
+   * MACD(2 ≤ fast ≤ slow, signal ≥ 1): EMA helpers from `fast−1` / `slow−1`, budget `ε₄/a`,
+     `a = 2/(period+1)`; `MACD` from `slow−1`, budget `ε_n + ε₄/a_f + ε₄/a_s`; `signal`, `histogram`
+     from `slow+signal−2`, budgets `ε_n + (ε₄/a_g + ε_n) + (ε₄/a_f + ε₄/a_s)` resp. one helper budget
+     more; `histogram = MACD − signal` on the STORED values up to `3·ε_n`.
+   * STOCH(period ≥ 2, smoothing_k ≥ 1, slow_period ≥ 1): own reading is always a dict; raw `stoch`
+     from `period−1` (exact in `_data`, `ε_n` and `[0,100]` in the own dict); `%K` from
+     `t_K = period+smoothK−2`, budget `(j−t_K+1)·ε₄`; `%D` from `t_D = t_K+slow−1`, budget
+     `(j−t_D+1)·ε₄ + (j−t_K+1)·ε₄`; own `k`, `d` one `ε_n` more.
+   * TSI(p ≥ 1, s ≥ 1): nothing on candle 0, `_data` (exact momentum) from candle 1, first level
+     from index `p` (NOT `p−1`), second level and own reading from `p+s−1`; chain budget
+     `β = ε₄/a_s + ε₄/a_p`; own reading within `ε_n + 200·β/(d−β)` of the textbook TSI wherever the
+     exact denominator is `≥ d > β`; `|TSI| ≤ 100 + 200·β/abs_second + ε_n` always, and
+     `−100 ≤ TSI ≤ 100` EXACTLY under the extra rounding law `RoundNegLe` (`−round x ≤ round (−x)`:
+     true for Python's odd `round` and for the ℚ instance, NOT a consequence of `LawfulPyF`).
+   * ADX(p ≥ 1, signal ≥ 1): TR from candle 1, ATR / `_pos` / `_neg` / `DM_Plus` / `DM_Neg` from candle
+     `p` (NOT `p−1`), `ADX` from `p+signal−1`; `0 ≤ ADX ≤ 100`, `0 ≤ DI±` exactly; against the textbook
+     series `DI±` within `ε_n + adxDiBudget` where the textbook ATR exceeds `p·ε₄ + ε₄`, `ADX` within
+     `ε_n + signal·ε₄ + δ` where the candles so far are well-conditioned (`AdxCond`) with `dx` budget `≤ δ`.
+   * VWAP: readings from candle 0 (cumulative, the period is unused); `_data` = exactly the running
+     sums; own reading within `ε_n` of `Σ v·typical / Σ v`.
+   * Aroon(p ≥ 1): fields `None` up to `p−1`, first reading at `p`; each field within `ε_n`,
+     `up, down ∈ [0,100]`, `osc ∈ [−100,100]`.
+   * OBV, ROC: `obv_series`, `roc_series` (as before), and now through the engine: `C06_FULL_holds`.
+
+WHAT IS STILL OPEN (`C06_chained_FULL` below states the first item formally)
+
+* inputs that are ANOTHER INDICATOR's reading, in particular inputs that start late: the series
+  theorems take `input` to be a candle field (`c.attr input = some …`); for arbitrary inputs only
+  the per-call theorems of item 1 apply;
+* a collapsing timeframe at the numeric level: the series theorems are over the base timeframe
+  (`runIndicator … {}`); C01 (`TreeSpec.live_refines` with `MgrSpec.tf` / `MgrSpec.fill`) says that
+  with a timeframe the snapshot is the same row-major run over the RESAMPLED candles, to which the
+  row-major theorems here apply verbatim (`rsi_series_tf` shows the instantiation for RSI), but
+  this is not restated for every indicator;
+* IEEE effects (`K` is an exact ordered field with a lawful decimal rounding);
+* for TSI the exact range needs `RoundNegLe K 4`, an assumption on the rounding beyond `LawfulPyF`.
 -/
 namespace Hex.C06
 open Hex Hex.Numeric
